@@ -65,9 +65,9 @@ CLAIMED["C12"] = ("TLA+ specification of dispatch()'s wait: a declarative oracle
     "TLC proves code-shaped wait = oracle for 2640 configurations (thorough: 229,376); the configurations that return are each measured on the real crate (quick: a 441-configuration representative subset; thorough: all, at two time scales) and must satisfy elapsed >= W - 1 ms, elapsed <= W + 150 ms (+20 ms when the machine is quiet and it repeats), limiting timer fired, none early, one-off events delivered once, sources removed, second dispatch blocks again.", "4/C12",
     "The verdict on the real code is wall-clock measurement (std::time::Instant); TLA+ supplies the configuration space and the expected values, not the clock. Upper-bound clauses count only if reproduced in every one of 4 (Slack) or 6 (Tight) serial measurements; deviations under 150 ms (20 ms on a quiet machine) are not observable; `>` vs `>=` in the timer pop is only distinguishable in the model. Trusted: Linux timerfd and epoll never fire early, the monotonic clock, polling's EINTR loop as modelled.")
 
-CLAIMED["C17"] = ("TLA+ model of io.rs (AsyncIo.tla: socket FIFOs with capacity B and EPOLLOUT low-water mark, one-shot epoll table, the adapter's single interest/waker/last_readiness, executor, tasks with all chunkings chosen on the fly) model-checked exhaustively by TLC; ALL guided behaviours of a small configuration plus seeded TLC simulations and generated long scenarios are replayed on the real Async over a UnixStream pair scaled so that the real capacity is exactly B = 2 blocks, and TLC validates every recorded step against the same operators (epoll entry from /proc fdinfo, O_NONBLOCK, occupied slots, wakers woken, bytes and digests)",
+CLAIMED["C17"] = ("TLA+ model of io.rs (AsyncIo.tla: socket FIFOs with capacity B and EPOLLOUT low-water mark, one-shot epoll table, the adapter's interest / per-direction wakers / last_readiness, executor, tasks with all chunkings chosen on the fly) model-checked exhaustively by TLC; ALL guided behaviours of a small configuration plus seeded TLC simulations and generated long scenarios are replayed on the real Async over a UnixStream pair scaled so that the real capacity is exactly B = 2 blocks, and TLC validates every recorded step against the same operators (epoll entry from /proc fdinfo, O_NONBLOCK, occupied slots, wakers woken, bytes and digests)",
     "Exhaustive model checking of bounded configurations (strings <= 4-5 bytes over 2 symbols, chunks 1..3, B in {2,3}, <= 5 ops per task, peer acting mid-dispatch, lifecycle up to 3 adapt_io per fd and a regular file) plus liveness under weak fairness on small bounds; conformance: replayed model behaviours reproduced event-for-event including kernel results.", "9/C17",
-    "Trusted: the kernel facts measured at start (block = SO_SNDBUF/2-64, capacity 2 blocks, POLLOUT low-water 0; differences reported as Env_*, never as violations), /proc fdinfo, the waker wrapper of the driver. B = 3 configurations are model-checked only. Open finding KF-C17-shared-adapter (two operations pending on one adapter) is reported with *_shared_adapter clauses; one pending operation per adapter is clean.")
+    "Trusted: the kernel facts measured at start (block = SO_SNDBUF/2-64, capacity 2 blocks, POLLOUT low-water 0; differences reported as Env_*, never as violations), /proc fdinfo, the waker wrapper of the driver. B = 3 configurations are model-checked only. Two futures pending on one adapter (topologies split / join) are part of the checked configurations since the fix 0061559.")
 
 checks = []
 for pid, (tech, text, ref, note) in CLAIMED.items():
